@@ -337,5 +337,7 @@ def run(chk, facts, tier):
     from rules import c14_canerr
     c14_canerr.check(chk, facts)
     c14_canerr.folds_guarded(chk, facts)
+    c14_canerr.closure_computed(chk, facts)
+    c14_canerr.per_policy_typecheck(chk, facts)
     from rules import c02_ops
     c02_ops.check_tpe(chk, facts)
